@@ -104,8 +104,9 @@ func CalculateAmountToClaim(
 		// calculate based on flow rate and remaining deposit
 		timeSinceLast := nowTime.Sub(lastOutflowTime)
 		secondsSinceLast := int64(timeSinceLast.Seconds())
-		numCoins := secondsSinceLast * flowRate
-		amountToClaim = sdk.NewCoin(deposit.Denom, sdk.NewIntFromUint64(uint64(numCoins)))
+		// seconds x rate can exceed 64 bits (e.g. 2,000 s at 10^18/s): multiply in arbitrary precision
+		numCoins := sdk.NewInt(secondsSinceLast).Mul(sdk.NewInt(flowRate))
+		amountToClaim = sdk.NewCoin(deposit.Denom, numCoins)
 		if deposit.Amount.GT(amountToClaim.Amount) {
 			remainingDepositValue = deposit.Sub(amountToClaim)
 		} else {
